@@ -402,16 +402,28 @@ static void run_subprocess(char **argv) {
     fprintf(stderr, "\n");
   }
 
-  if (fork() == 0) {
+  pid_t pid = fork();
+  if (pid < 0) {
+    fprintf(stderr, "fork failed: %s\n", strerror(errno));
+    exit(1);
+  }
+
+  if (pid == 0) {
     // Child process. Run a new command.
     execvp(argv[0], argv);
     fprintf(stderr, "exec failed: %s: %s\n", argv[0], strerror(errno));
     _exit(1);
   }
 
-  // Wait for the child process to finish.
+  // Wait for that child process to finish. The driver may have
+  // inherited other children; their fate is not ours.
   int status;
-  while (wait(&status) > 0);
+  while (waitpid(pid, &status, 0) < 0) {
+    if (errno != EINTR) {
+      fprintf(stderr, "waitpid failed: %s\n", strerror(errno));
+      exit(1);
+    }
+  }
   if (status != 0)
     exit(1);
 }
